@@ -918,31 +918,38 @@ package engine
 //@ --   consumed  bytes handed out so far
 //@ --   lastRune  size of the rune delivered by the last operation if that was a successful ReadRune, else -1
 //@ --   lastByte  1 if a byte is remembered for UnreadByte, else 0 (a FAILED ReadByte keeps it: bufio.go ReadByte)
+//@ --   delivered the rune or byte handed out by the last successful ReadRune/ReadByte
+//@ --   buffered  what Buffered() reports: bytes that can be read from the buffer without touching the source
 //@ extern (*bufio.Reader).ReadRune
-//@   modifies gf(consumed, b), gf(lastRune, b), gf(lastByte, b)
+//@   modifies gf(consumed, b), gf(lastRune, b), gf(lastByte, b), gf(buffered, b), gf(delivered, b)
 //@   ensures err == nil ==> 1 <= size && size <= 4 && gf(consumed, b) == old(gf(consumed, b)) + size && gf(lastRune, b) == size && gf(lastByte, b) == 1
 //@   ensures err != nil ==> size == 0 && gf(consumed, b) == old(gf(consumed, b)) && gf(lastRune, b) == -1 && gf(lastByte, b) == old(gf(lastByte, b))
 //@   ensures r >= 0
+//@   ensures err == nil ==> gf(delivered, b) == r
 //@ extern (*bufio.Reader).UnreadRune
-//@   modifies gf(consumed, b), gf(lastRune, b), gf(lastByte, b)
+//@   modifies gf(consumed, b), gf(lastRune, b), gf(lastByte, b), gf(buffered, b)
 //@   ensures (result == nil) <==> old(gf(lastRune, b)) >= 0
 //@   ensures result == nil ==> gf(consumed, b) == old(gf(consumed, b)) - old(gf(lastRune, b)) && gf(lastRune, b) == -1 && gf(lastByte, b) == 0
 //@   ensures result != nil ==> gf(consumed, b) == old(gf(consumed, b)) && gf(lastRune, b) == old(gf(lastRune, b)) && gf(lastByte, b) == old(gf(lastByte, b))
 //@ extern (*bufio.Reader).ReadByte
-//@   modifies gf(consumed, b), gf(lastRune, b), gf(lastByte, b)
+//@   modifies gf(consumed, b), gf(lastRune, b), gf(lastByte, b), gf(buffered, b), gf(delivered, b)
 //@   ensures gf(lastRune, b) == -1
+//@   ensures result1 == nil ==> gf(delivered, b) == result0
 //@   ensures result1 == nil ==> gf(consumed, b) == old(gf(consumed, b)) + 1 && gf(lastByte, b) == 1 && gf(consumed, b) >= 1
 //@   ensures result1 != nil ==> gf(consumed, b) == old(gf(consumed, b)) && gf(lastByte, b) == old(gf(lastByte, b))
 //@ extern (*bufio.Reader).UnreadByte
-//@   modifies gf(consumed, b), gf(lastRune, b), gf(lastByte, b)
+//@   modifies gf(consumed, b), gf(lastRune, b), gf(lastByte, b), gf(buffered, b)
 //@   ensures result == nil ==> old(gf(lastByte, b)) == 1 && gf(consumed, b) == old(gf(consumed, b)) - 1 && gf(lastByte, b) == 0 && gf(lastRune, b) == -1
 //@   ensures result != nil ==> gf(consumed, b) == old(gf(consumed, b)) && gf(lastRune, b) == old(gf(lastRune, b)) && gf(lastByte, b) == old(gf(lastByte, b))
 //@   ensures old(gf(lastByte, b)) == 1 && old(gf(consumed, b)) > 0 ==> result == nil
 //@ extern (*bufio.Reader).Buffered
 //@   pure
+//@   ensures result == gf(buffered, b)
 //@ extern errors.Is
 //@   pure
 //@   ensures err == nil && target != nil ==> !result
+//@   -- errors.Is: "an error is considered to match a target if it is equal to that target" (stated for io.EOF, a comparable value)
+//@   ensures err == target && target == io.EOF ==> result
 
 //@ axiom[io.EOF-is-an-error-value] io.EOF != nil
 
@@ -990,28 +997,36 @@ package engine
 //@   ensures[succeeds-on-an-open-input] old(s.mode) == 0 && old(s.endOfStream) != 2 ==> result == nil
 //@   ensures[keeps-reader] result == nil && old(s.buf.Reader) != nil && old(s.endOfStream) != 2 ==> s.buf == old(s.buf) && s.endOfStream == old(s.endOfStream)
 //@   ensures[error-changes-nothing] result != nil ==> s.endOfStream == old(s.endOfStream) && (old(s.mode) != 0 ==> s.buf == old(s.buf))
+//@   ensures[eof-action-error-refuses-to-read-past-the-end] old(s.mode) == 0 && old(s.endOfStream) == 2 && s.eofAction == 1 ==> result == errPastEndOfStream && result != nil
+//@   ensures[eof-action-eof-code-reads-on-past-the-end] old(s.mode) == 0 && old(s.endOfStream) == 2 && s.eofAction == 0 ==> result == nil && s.endOfStream == 2
+//@   ensures[eof-action-reset-starts-over] old(s.mode) == 0 && old(s.endOfStream) == 2 && s.eofAction == 2 ==> result == nil && s.endOfStream == 0
 
 //@ func (*Stream).checkEOS
 //@   property C19
 //@   requires s != nil && s.buf.Reader != nil
 //@   modifies s.endOfStream
 //@   ensures[not-past-without-error] err == nil ==> s.endOfStream != 2
+//@   ensures[past-once-the-end-was-hit] err == io.EOF ==> s.endOfStream == 2
+//@   ensures[not-at-the-end-while-input-is-buffered] gf(buffered, s.buf.Reader) > 0 ==> s.endOfStream != 1
 
 //@ func (*Stream).ReadRune
 //@   property C19
 //@   requires s != nil
-//@   modifies s.buf, s.endOfStream, s.position, s.lastRuneSize, class ghost_consumed, class ghost_lastRune, class ghost_lastByte
+//@   modifies s.buf, s.endOfStream, s.position, s.lastRuneSize, class ghost_consumed, class ghost_lastRune, class ghost_lastByte, class ghost_buffered, class ghost_delivered
 //@   ensures[position-advances-by-size] s.position == wrap64(old(s.position) + size)
 //@   ensures[size-is-what-was-consumed] err == nil && s.buf == old(s.buf) ==> gf(consumed, s.buf.Reader) == old(gf(consumed, s.buf.Reader)) + size
 //@   ensures[can-be-unread] err == nil ==> s.lastRuneSize == size && gf(lastRune, s.buf.Reader) == size && s.endOfStream != 2 && s.mode == 0 && s.streamType == 0 && s.buf.Reader != nil
 //@   ensures[rune-is-non-negative] r >= 0
 //@   ensures[wrong-type-is-refused] old(s.streamType) != 0 || old(s.mode) != 0 ==> err != nil && s.position == old(s.position)
 //@   ensures[size-range] 0 <= size && size <= 4 && (err == nil ==> 1 <= size) && (err != nil ==> size == 0)
+//@   ensures[delivers-the-rune-the-reader-gave] err == nil ==> r == gf(delivered, s.buf.Reader)
+//@   ensures[not-at-the-end-while-input-is-buffered] err == nil && gf(buffered, s.buf.Reader) > 0 ==> s.endOfStream == 0
+//@   ensures[past-once-the-end-was-hit] old(s.mode) == 0 && old(s.streamType) == 0 && err == io.EOF ==> s.endOfStream == 2
 
 //@ func (*Stream).UnreadRune
 //@   property C19
 //@   requires s != nil
-//@   modifies s.buf, s.endOfStream, s.position, s.lastRuneSize, class ghost_consumed, class ghost_lastRune, class ghost_lastByte
+//@   modifies s.buf, s.endOfStream, s.position, s.lastRuneSize, class ghost_consumed, class ghost_lastRune, class ghost_lastByte, class ghost_buffered
 //@   ensures[moves-back-by-the-rune] result == nil ==> s.position == wrap64(old(s.position) - old(s.lastRuneSize)) && s.endOfStream == 0
 //@   ensures[failure-keeps-the-cursor] result != nil ==> s.position == old(s.position)
 //@   ensures[wrong-type-is-refused] old(s.streamType) != 0 || old(s.mode) != 0 ==> result != nil && s.position == old(s.position)
@@ -1020,16 +1035,19 @@ package engine
 //@ func (*Stream).ReadByte
 //@   property C19
 //@   requires s != nil
-//@   modifies s.buf, s.endOfStream, s.position, class ghost_consumed, class ghost_lastRune, class ghost_lastByte
+//@   modifies s.buf, s.endOfStream, s.position, class ghost_consumed, class ghost_lastRune, class ghost_lastByte, class ghost_buffered, class ghost_delivered
 //@   ensures[wrong-type-is-refused] old(s.streamType) != 1 || old(s.mode) != 0 ==> result1 != nil && s.position == old(s.position)
 //@   ensures[position-advances-by-one] result1 == nil ==> s.position == wrap64(old(s.position) + 1)
 //@   ensures[failure-keeps-the-cursor] result1 != nil ==> s.position == old(s.position)
 //@   ensures[can-be-unread] result1 == nil ==> gf(lastByte, s.buf.Reader) == 1 && gf(consumed, s.buf.Reader) > 0 && s.endOfStream != 2 && s.mode == 0 && s.streamType == 1 && s.buf.Reader != nil
+//@   ensures[delivers-the-byte-the-reader-gave] result1 == nil ==> result0 == gf(delivered, s.buf.Reader)
+//@   ensures[not-at-the-end-while-input-is-buffered] result1 == nil && gf(buffered, s.buf.Reader) > 0 ==> s.endOfStream == 0
+//@   ensures[past-once-the-end-was-hit] old(s.mode) == 0 && old(s.streamType) == 1 && result1 == io.EOF ==> s.endOfStream == 2
 
 //@ func (*Stream).UnreadByte
 //@   property C19
 //@   requires s != nil
-//@   modifies s.buf, s.endOfStream, s.position, class ghost_consumed, class ghost_lastRune, class ghost_lastByte
+//@   modifies s.buf, s.endOfStream, s.position, class ghost_consumed, class ghost_lastRune, class ghost_lastByte, class ghost_buffered
 //@   ensures[moves-back-by-one] result == nil ==> s.position == wrap64(old(s.position) - 1) && s.endOfStream == 0
 //@   ensures[failure-keeps-the-cursor] result != nil ==> s.position == old(s.position)
 //@   ensures[wrong-type-is-refused] old(s.streamType) != 1 || old(s.mode) != 0 ==> result != nil && s.position == old(s.position)
@@ -1041,6 +1059,10 @@ package engine
 //@   nosafety
 //@   bind s, serr = stream#1
 //@   onk[cursor-unchanged] s.position == old(s.position)
+//@   bind r, size, rerr = (*Stream).ReadRune#1
+//@   at-call Unify requires[delivers-the-rune-peeked] rerr == nil ==> a2 is Atom && (a2 as Atom) == r
+//@   at-call Unify requires[end-of-file-at-the-end] rerr == io.EOF ==> a2 is Atom && (a2 as Atom) == atomEndOfFile
+//@   at-call Unify requires[answers-the-caller-with-its-own-continuation] a0 == vm && a1 == char && a3 == k && a4 == env
 
 //@ func PeekByte
 //@   property C19
@@ -1048,11 +1070,28 @@ package engine
 //@   nosafety
 //@   bind s, serr = stream#1
 //@   onk[cursor-unchanged] s.position == old(s.position)
+//@   bind b, rerr = (*Stream).ReadByte#1
+//@   at-call Unify requires[delivers-the-byte-peeked] rerr == nil ==> a2 is Integer && (a2 as Integer) == b
+//@   at-call Unify requires[minus-one-at-the-end] rerr == io.EOF ==> a2 is Integer && (a2 as Integer) == -1
+//@   at-call Unify requires[answers-the-caller-with-its-own-continuation] a0 == vm && a1 == inByte && a3 == k && a4 == env
+
+//@ -- the parser's entry point, declared only so that ReadTerm can name its results (bind); nothing is assumed about it:
+//@ -- no ensures, no modifies (the heap is havocked at its call sites, as for any unknown callee)
+//@ func (*Parser).Term
+//@   nosafety
 
 //@ func ReadTerm
 //@   property C19
 //@   requires vm != nil
 //@   nosafety
+//@   bind s, serr = stream#1
+//@   bind t, perr = (*Parser).Term#1
+//@   bind uerr = (*Stream).UnreadRune#1
+//@   at-call NewParser requires[parses-the-stream-asked-for] a0 == vm && a1 is *Stream && (a1 as *Stream) == s
+//@   at-call (*Stream).UnreadRune requires[the-look-ahead-goes-back-to-that-stream] a0 == s && called(t)
+//@   onk[the-look-ahead-was-returned-first] called(uerr)
+//@   at-call Unify requires[end-of-file-at-the-end] perr == io.EOF ==> a2 is Atom && (a2 as Atom) == atomEndOfFile
+//@   at-call Unify requires[answers-the-caller-with-its-own-continuation] a0 == vm && a3 == k && a4 == env
 
 //@ func GetChar
 //@   property C19
@@ -1062,6 +1101,8 @@ package engine
 //@   bind r, size, rerr = (*Stream).ReadRune#1
 //@   onk[consumes-exactly-the-rune-delivered] called(r) && s.position == wrap64(old(s.position) + size) && (rerr == nil ==> size >= 1) && (rerr != nil ==> size == 0)
 //@   at-call Unify requires[delivers-the-rune-read] rerr == nil ==> a2 is Atom && (a2 as Atom) == r
+//@   at-call Unify requires[end-of-file-at-the-end] rerr == io.EOF ==> a2 is Atom && (a2 as Atom) == atomEndOfFile
+//@   at-call Unify requires[answers-the-caller-with-its-own-continuation] a0 == vm && a1 == char && a3 == k && a4 == env
 
 //@ func GetByte
 //@   property C19
@@ -1071,9 +1112,14 @@ package engine
 //@   bind b, rerr = (*Stream).ReadByte#1
 //@   onk[consumes-exactly-one-byte] called(b) && (rerr == nil ==> s.position == wrap64(old(s.position) + 1)) && (rerr != nil ==> s.position == old(s.position))
 //@   at-call Unify requires[delivers-the-byte-read] rerr == nil ==> a2 is Integer && (a2 as Integer) == b
+//@   at-call Unify requires[minus-one-at-the-end] rerr == io.EOF ==> a2 is Integer && (a2 as Integer) == -1
+//@   at-call Unify requires[answers-the-caller-with-its-own-continuation] a0 == vm && a1 == inByte && a3 == k && a4 == env
 
+//@ -- sunk: a Write of some sink has happened in this activation (so 'sent once' can be said at the call, 'sent' at the return)
+//@ ghost sunk bool
 //@ extern io.Writer.Write
 //@   pure
+//@   ghost-set sunk 1
 //@   ensures 0 <= n && n <= len(p)
 
 //@ func textWriter.Write
@@ -1082,6 +1128,9 @@ package engine
 //@   modifies t.stream.position
 //@   ensures[position-counts-bytes-written] t.stream.position == wrap64(old(t.stream.position) + result0)
 //@   at-call io.Writer.Write requires[forwards-unchanged-in-one-call] a0 == t.stream.sink && a1 == p
+//@   at-call io.Writer.Write requires[sent-once] !ghost(sunk)
+//@   bind wn, werr = io.Writer.Write#1
+//@   ensures[reports-what-the-sink-reported] called(wn) && result0 == wn && result1 == werr
 
 //@ func binaryWriter.Write
 //@   property C19
@@ -1089,6 +1138,9 @@ package engine
 //@   modifies b.stream.position
 //@   ensures[position-counts-bytes-written] b.stream.position == wrap64(old(b.stream.position) + result0)
 //@   at-call io.Writer.Write requires[forwards-unchanged-in-one-call] a0 == b.stream.sink && a1 == p
+//@   at-call io.Writer.Write requires[sent-once] !ghost(sunk)
+//@   bind wn, werr = io.Writer.Write#1
+//@   ensures[reports-what-the-sink-reported] called(wn) && result0 == wn && result1 == werr
 
 //@ ---------------------------------------------------------------- placeholders: Go values as terms (C15)
 
